@@ -49,6 +49,15 @@ func TestSweep(t *testing.T) {
 			}
 		}
 	}
+	// pooled buffers of more than 2^16 samples whose size is not a multiple of 4 or 8
+	for _, tn := range []string{"int8", "float32", "uint64"} {
+		for _, sh := range [][2]int{{1, 65537}, {3, 21847}, {2, 35001}, {7, 9363}} {
+			for _, l := range []int{0, sh[1]} {
+				ops := []Op{{Kind: "get"}, {Kind: "put"}, {Kind: "get"}, {Kind: "get"}, {Kind: "put", I: 1}, {Kind: "put"}, {Kind: "get", N: 1}}
+				Oracle.One(t, env, rec, "sweep", &Case{T: tn, C: sh[0], L: l, K: sh[1], Ops: ops})
+			}
+		}
+	}
 	// bursts: g buffers outstanding at once, all put back (oldest first / newest first), then g+1 gets
 	for _, tn := range []string{"int16", "float64", "uint8"} {
 		for _, sh := range [][3]int{{1, 0, 2}, {2, 1, 3}, {3, 2, 2}} {
